@@ -98,13 +98,13 @@ contract(SC + '._check_signature',
          ensures=[('same-item', 'result == item'),
                   # C01 (A4): the element's own Signature has a single Reference and it names the element's own ID
                   ('C01-single-reference-to-own-id',
-                   'implies(truthy(item.id), item.signature is not None and item.signature.signed_info is not None and '
+                   'truthy(item.id) and item.signature is not None and item.signature.signed_info is not None and '
                    'len(item.signature.signed_info.reference) == 1 and '
-                   'item.signature.signed_info.reference[0].uri == concat("#", item.id))'),
+                   'item.signature.signed_info.reference[0].uri == concat("#", item.id)'),
                   # C01/C03/C10: normal return => the signature verified (tool said OK for this element id) under a
                   # certificate metadata holds for the issuer -- or, only when metadata has none and the configuration
                   # allows it, under a certificate embedded in the element's own signature
-                  ('C03-verified-under-issuer-key', 'implies(truthy(item.id), SIG_OK(self, decoded_xml, item, node_name, issuer))')],
+                  ('C03-verified-under-issuer-key', 'SIG_OK(self, decoded_xml, item, node_name, issuer)')],
          raises={'Exception': 'True'},
          modifies=[],
          loops={0: {'inv': ['len(certs) == i0',
@@ -202,6 +202,10 @@ macro('ISSUER_OF', ['item', 'iss'], _ISSM)
 # SIGP names the formula "some usable certificate verifies" so that callers reason about one opaque atom; only
 # _check_signature's own proof unfolds it (definitional axiom below: the formula implies the atom, nothing else is assumed)
 ghost('SIGP', ['Val', 'Bool', 'Val', 'Val', 'Val', 'Val', 'Val'], 'Bool')   # (metadata, only_use_md_keys, doc bytes, id, issuer, item, node name)
+# REF_OK (C01, atom A4): the element's own Signature has exactly one Reference and it names the element's own ID
+macro('REF_OK', ['item'],
+      'truthy(item.id) and item.signature is not None and item.signature.signed_info is not None and '
+      'len(item.signature.signed_info.reference) == 1 and item.signature.signed_info.reference[0].uri == concat("#", item.id)')
 macro('SIG_OK', ['sec', 'doc', 'item', 'nn', 'iss'],
       'SIGP(sec.metadata, truthy(sec.only_use_keys_in_metadata), DOC(doc), item.id, ISSUER_OF(item, iss), item, nn)')
 axiom('SIGP', 'DEF-SIGP',
@@ -220,9 +224,10 @@ contract(SC + '.check_signature',
          requires=["isinstance(item, 'saml2_tophat.saml:AssertionType_') or isinstance(item, 'saml2_tophat.samlp:RequestAbstractType_') "
                    "or isinstance(item, 'saml2_tophat.samlp:StatusResponseType_')"],
          ensures=[('same-item', 'result == item'),
-                  ('C01-verified', 'implies(truthy(item.id), SIG_OK(self, origdoc, item, node_name, issuer))')],
+                  ('C01-verified', 'SIG_OK(self, origdoc, item, node_name, issuer)'),
+                  ('C01-reference-own-id', 'REF_OK(item)')],
          raises={'Exception': 'True'}, modifies=[],
-         clauses_from={'C01': ['C01-verified'], 'C03': ['C01-verified'], 'C20': ['C01-verified']})
+         clauses_from={'C01': ['C01-verified', 'C01-reference-own-id'], 'C03': ['C01-verified'], 'C20': ['C01-verified']})
 
 contract(SC + '.correctly_signed_response',
          types={'decoded_xml': 'Union(Str, Bytes)', 'must': 'Any', 'origdoc': 'Any', 'only_valid_cert': 'Any',
@@ -231,10 +236,11 @@ contract(SC + '.correctly_signed_response',
          ensures=[('parsed', 'is_resp(decoded_xml) and truthy(result.signature) == RP(decoded_xml) and fresh(result)'),
                   ('C02-required', 'implies(truthy(require_response_signature), RP(decoded_xml))'),
                   ('C01-verified', "implies(RP(decoded_xml) and not ('do_not_verify' in kwargs) and truthy(result.id), "
-                                   "SIG_OK(self, decoded_xml, result, cname(result), None))")],
+                                   "SIG_OK(self, decoded_xml, result, cname(result), None))"),
+                  ('C01-reference-own-id', "implies(RP(decoded_xml) and not ('do_not_verify' in kwargs), REF_OK(result))")],
          raises={'TypeError': 'True', 'SigverError': 'True', 'Exception': 'True'},
          modifies=[],
-         clauses_from={'C01': ['C01-verified'], 'C02': ['C02-required', 'C01-verified'], 'C20': ['C01-verified']})
+         clauses_from={'C01': ['C01-verified', 'C01-reference-own-id'], 'C02': ['C02-required', 'C01-verified'], 'C20': ['C01-verified']})
 
 
 # ---- requests and other non-response messages: one specialised variant of correctly_signed_message per message type
@@ -284,9 +290,11 @@ for _t, (_fq, _cls) in MSG_VARIANTS.items():
              ensures=[('C10-parsed-as-expected-type', 'is_msg(%r, decoded_xml) and fresh(result)' % _t),
                       ('C10-must', 'implies(truthy(must), truthy(result.signature))'),
                       ('C10-verified', 'implies(truthy(result.signature) and truthy(result.id), '
-                                       'SIG_OK(self, decoded_xml, result, cname(result), None))')],
+                                       'SIG_OK(self, decoded_xml, result, cname(result), None))'),
+                      ('C01-reference-own-id', 'implies(truthy(result.signature), REF_OK(result))')],
              raises={'TypeError': 'True', 'SigverError': 'True', 'Exception': 'True'}, modifies=[],
-             clauses_from={'C10': ['C10-parsed-as-expected-type', 'C10-must', 'C10-verified'], 'C01': ['C10-verified']})
+             clauses_from={'C10': ['C10-parsed-as-expected-type', 'C10-must', 'C10-verified'],
+                           'C01': ['C10-verified', 'C01-reference-own-id']})
 contract(SC + '.correctly_signed_message', trusted=True, variants=_variants,
          note='dispatch stub: every call site in the package passes a constant message type and is checked against the '
               'specialised variant; a call with a non-constant type would fall back to this (no guarantees)')
